@@ -28,7 +28,8 @@ ASSUMPTIONS = ["collections masked (BLOCH_VERIF_GC=none)",
 def outcome(r):
     c = r.classify()
     if c[0] == "ok":
-        return ("ok", r.stdout)
+        # the multi-shot summary prints the wall-clock time of the run
+        return ("ok", "\n".join(l for l in r.stdout.split("\n") if not l.startswith("Elapsed:")))
     if c[0] == "diag":
         return ("diag", c[1], c[4][:60])
     return tuple(c[:2])
@@ -130,6 +131,17 @@ def rule_programs(ctx):
                                         "class Conf { public static int scale = 3; public static int factor = scale + 1; public constructor() -> Conf = default; }\n"
                                         "class Boot { public static int first = new Meter().read(50); public constructor() -> Boot = default; }\n"
                                         "function main() -> void { echo(Boot.first); echo(Conf.factor); }\n"),
+        ("shots-on-main-among-functions", "function before() -> int { return 1; }\n"
+                                          "@shots(3)\nfunction main() -> void { @tracked qubit q; x(q); measure q; echo(before() + after()); }\n"
+                                          "function after() -> int { return 2; }\n"),
+        ("shots-on-main-with-class", "class K { public constructor() -> K = default; public function v() -> int { return 5; } }\n"
+                                     "@shots(2)\nfunction main() -> void { @tracked qubit q; measure q; echo(helper()); }\n"
+                                     "function helper() -> int { return new K().v(); }\n"),
+        ("generic-static-through-later-class", "class Leaf extends Gen<int> { public constructor() -> Leaf { super(); return this; } }\n"
+                                               "class Gen<T> { public static int base = Util.seven(); public T v; public constructor() -> Gen<T> = default; "
+                                               "public function get() -> int { return base; } }\n"
+                                               "class Util { public constructor() -> Util = default; public static function seven() -> int { return 7; } }\n"
+                                               "function main() -> void { Leaf l = new Leaf(); echo(l.get()); }\n"),
         ("generic-middle-base", "class D extends G<int> { public constructor() -> D { super(); return this; } }\n"
                                 "class G<T> extends B { public T t; public constructor() -> G<T> { super(); return this; } }\n"
                                 "class B { public int x = 5; public int y = 7; public constructor() -> B { return this; } }\n"
